@@ -126,3 +126,13 @@ chk("C18", "fault_enumeration",
     "float with numbers and unit intact (the statement promises numbers and unit). Whether a faulty call is refused at all is "
     "C01/C08's subject.",
     "fault injection at every in-place call site + before/after snapshots; Hypothesis values and call sequences", "DESIGN.md §3 C18")
+chk("C09", "exploration",
+    "Exhaustive sweep over all 30 ordered (equivalence, from-dimension, to-dimension) pairs of the 9 built-in equivalences x every "
+    "input/target unit of per-dimension pools (SI, CGS, prefixed, compound), plus Hypothesis cases (units, intermediate member, "
+    "mu/gamma, values over +-12 decades within each formula's domain, scalar/array, int/float) through to_equivalent / to / "
+    "in_units / to_value / convert_to_equivalent / convert_to_units(equivalence=). Oracles: closed-form SI formula with the "
+    "library's own constants, there-and-back, via-intermediate == direct, entry-point agreement, input snapshot for copying "
+    "forms, in-place == copy, InvalidUnitEquivalence for uncovered requests (with the input left intact).",
+    "Trusted: the nine formulas written from the statement/docstrings; constants and unit scales read from the library as data. "
+    "rel tol 1e-11 (lorentz 1e-7, beta <= 0.999999).",
+    "exhaustive (equivalence, from, to, units) sweep + Hypothesis values vs closed-form formulas, round-trip and path laws", "DESIGN.md §3 C09")
